@@ -552,3 +552,46 @@ func hasLabels(m *dto.Metric, kv []string) bool {
 	}
 	return true
 }
+
+// sumOf reads the sample sum of a histogram or summary of the instance's registry.
+func sumOf(in *Instance, name string) float64 {
+	mfs, err := in.Reg.Gather()
+	if err != nil {
+		return 0
+	}
+	sum := 0.0
+	for _, mf := range mfs {
+		if mf.GetName() != name {
+			continue
+		}
+		for _, m := range mf.GetMetric() {
+			if m.Histogram != nil {
+				sum += m.Histogram.GetSampleSum()
+			}
+			if m.Summary != nil {
+				sum += m.Summary.GetSampleSum()
+			}
+		}
+	}
+	return sum
+}
+
+// counterOf sums a counter family over all label sets of a registry (also one of an instance that has stopped).
+func counterOf(reg *prometheus.Registry, name string) float64 {
+	mfs, err := reg.Gather()
+	if err != nil {
+		return 0
+	}
+	sum := 0.0
+	for _, mf := range mfs {
+		if mf.GetName() != name {
+			continue
+		}
+		for _, m := range mf.GetMetric() {
+			if m.Counter != nil {
+				sum += m.Counter.GetValue()
+			}
+		}
+	}
+	return sum
+}
